@@ -2,5 +2,5 @@ From Coq Require Import Extraction ExtrOcamlBasic ZArith List.
 From LP Require Import Num C06_Model.
 Extraction Language OCaml.
 Extraction "C06_m.ml" fact_init factorial_step factorial_run binomial_step binomial gammaln gamma
-  find_epsilon asr integrate gammaq_int gammap_ser gammaq_cf gammaq gammap
+  find_epsilon asr integrate panel_loop gammaq_int gammap_ser gammaq_cf gammaq gammap
   upper_incomplete_gamma lower_incomplete_gamma inv_gammap inv_gammaq Z.of_nat Z.to_nat.
